@@ -56,6 +56,7 @@ def WireVal.WF : WireVal → Prop
   | .i64 b => b.length = 8
   | .len b => b.length < 2 ^ 64
   | .i32 b => b.length = 4
+  | .group _ => False   -- the encoder never emits groups
 
 def Field.WF (f : Field) : Prop := 1 ≤ f.num ∧ f.num ≤ maxFieldNum ∧ f.val.WF
 
@@ -102,6 +103,7 @@ theorem decField_enc (f : Field) (rest : Bytes) (h : f.WF) :
     simp only [encField, decField, List.append_assoc, decTag num 5 _ h2 (by decide), e, e', hl,
       if_neg hnum, if_false]
     rw [← h3, List.take_left, List.drop_left]
+  | group b => exact absurd h3 (by simp [WireVal.WF])
 
 /-! ## messages as field lists -/
 
@@ -232,6 +234,7 @@ theorem preflight_step (f : Field) (rest : Bytes) (k : Nat) (h : f.PreOK) :
     simp only [encField, List.append_assoc, decTag num 5 _ h2 (by decide), e, e', hl,
       if_neg hnum, if_false]
     rw [← h3, List.drop_left]
+  | group b => exact absurd h3 (by simp [WireVal.WF])
 
 theorem preflightAux_enc (fs : List Field) (h : ∀ f ∈ fs, f.PreOK) (k : Nat) (hk : (encFields fs).length ≤ k) :
     preflightAux k (encFields fs) = true := by
